@@ -146,16 +146,17 @@ type qrec struct {
 }
 
 type tcase struct {
-	K      string     `json:"k"`
-	S      []string   `json:"s"`
-	Q      *qrec      `json:"q"`
-	B      [][]string `json:"B"`
-	Parts  []part     `json:"parts"`
-	Sib    []part     `json:"sib"`
-	HasSib bool       `json:"hasSib"`
-	Vars   [][]string `json:"vars"`
-	Corner string     `json:"corner"`
-	Be     string     `json:"be"`
+	K      string         `json:"k"`
+	S      []string       `json:"s"`
+	Q      *qrec          `json:"q"`
+	B      [][]string     `json:"B"`
+	Parts  []part         `json:"parts"`
+	Sib    []part         `json:"sib"`
+	HasSib bool           `json:"hasSib"`
+	Vars   [][]string     `json:"vars"`
+	Corner string         `json:"corner"`
+	Be     string         `json:"be"`
+	L      map[string]int `json:"L"`
 }
 
 type M = map[string]interface{}
@@ -276,7 +277,29 @@ func got(payload string, err error) M {
 var resRT = []string{"PHYSICS", "TECHNICAL", "ANY"}
 var resRoles = []string{"r", "s", "any"}
 
-var resConsul *fakeconsul.Server // one fake Consul agent for all "res" cases on that backend (emptied per case)
+// one fake Consul agent per worker (identified by its backend file) for the "res" / "fld" cases, emptied per case.
+// Every case makes a new service, whose HTTP client keeps its connection open: the agent is replaced now and then,
+// which closes those connections.
+type consulSlot struct {
+	srv  *fakeconsul.Server
+	uses int
+}
+
+var consulSrv sync.Map
+
+func consulFor(file string) *fakeconsul.Server {
+	v, _ := consulSrv.LoadOrStore(file, &consulSlot{})
+	slot := v.(*consulSlot) // used by one worker only
+	if slot.srv != nil && slot.uses >= 100 {
+		slot.srv.Close()
+		slot.srv = nil
+	}
+	if slot.srv == nil {
+		slot.srv, slot.uses = fakeconsul.New(), 0
+	}
+	slot.uses++
+	return slot.srv
+}
 
 func doRes(rec *vtrace.Recorder, scn int, c *tcase, file string) {
 	var be sstore
@@ -285,11 +308,9 @@ func doRes(rec *vtrace.Recorder, scn int, c *tcase, file string) {
 		c.Be = "file"
 		be = &fileStore{newBackend(file)}
 	case "consul":
-		if resConsul == nil {
-			resConsul = fakeconsul.New()
-		}
-		resConsul.DeleteTree("")
-		be = &consulStore{resConsul}
+		srv := consulFor(file)
+		srv.DeleteTree("")
+		be = &consulStore{srv}
 	default:
 		fatal("case %d: unknown backend %q", scn, c.Be)
 	}
@@ -332,6 +353,53 @@ func doRes(rec *vtrace.Recorder, scn int, c *tcase, file string) {
 	}
 	rec.Emit("Res", "scn", scn, "q", c.Q, "B", b, "be", c.Be, "res", res, "get", get, "proc", proc, "direct", direct,
 		"qkept", *q == before)
+}
+
+// keys stored at a candidate level of the query c/RT/role/x/y, by shape (FldKeys in spec/ConfigQuery.tla)
+var fldKeys = map[int][]string{0: {}, 1: {"x"}, 2: {"x", "y"}, 3: {"y"}, 4: {"x/z"}, 5: {"x/y"}, 6: {"x/y", "y"}, 7: {"x/z", "y"}}
+
+// doFld: an entry key with a folder part; per candidate level the folder name is absent / a plain entry / a folder and
+// the leaf name absent / beside / inside.  Recorded like a "res" case (the trace specification derives existence from L).
+func doFld(rec *vtrace.Recorder, scn int, c *tcase, file string) {
+	var be sstore
+	switch c.Be {
+	case "", "file":
+		c.Be = "file"
+		be = &fileStore{newBackend(file)}
+	case "consul":
+		srv := consulFor(file)
+		srv.DeleteTree("")
+		be = &consulStore{srv}
+	default:
+		fatal("case %d: unknown backend %q", scn, c.Be)
+	}
+	for lvl, kq := range keyQuery {
+		keys, ok := fldKeys[c.L[lvl]]
+		if !ok {
+			fatal("case %d: unknown shape %d", scn, c.L[lvl])
+		}
+		for _, k := range keys {
+			p := pathOf(kq.Comp, kq.Rt, kq.Role, k)
+			be.put(p, "cfg:"+p)
+		}
+	}
+	be.put("d/ANY/any/x/y", "cfg:d/ANY/any/x/y") // another component has it everywhere it matters
+	svc := be.service()
+	q := mkQuery(c.Q)
+	before := *q
+	res := M{"found": false, "comp": "", "rt": "", "role": "", "entry": "", "raw": ""}
+	get := M{"ok": false, "payload": ""}
+	proc := M{"ok": false, "payload": ""}
+	r, err := svc.ResolveComponentQuery(q)
+	if err == nil && r != nil {
+		res = M{"found": true, "comp": r.Component, "rt": apricotpb.RunType_name[int32(r.RunType)], "role": r.RoleName,
+			"entry": r.EntryKey, "raw": r.Raw()}
+		get = got(svc.GetComponentConfiguration(r))
+		proc = got(svc.GetAndProcessComponentConfiguration(r, map[string]string{}))
+	}
+	direct := got(svc.GetComponentConfiguration(q))
+	rec.Emit("Res", "scn", scn, "q", c.Q, "B", [][]string{}, "L", c.L, "be", c.Be, "res", res, "get", get, "proc", proc,
+		"direct", direct, "qkept", *q == before)
 }
 
 func source(parts []part) string {
@@ -729,6 +797,8 @@ func (h *jitterHook) set(on bool) { h.on.Store(on) }
 
 var jitter = &jitterHook{}
 
+var nworkers = 4 // independent cases / request sequences handled at a time
+
 func runScenarios(path, tracePath, file string) int {
 	in, err := os.Open(path)
 	if err != nil {
@@ -742,20 +812,69 @@ func runScenarios(path, tracePath, file string) int {
 	sc := bufio.NewScanner(in)
 	sc.Buffer(make([]byte, 1<<20), 1<<24)
 	n := 0
+	var rest []*scenario
 	for sc.Scan() {
 		line := bytes.TrimSpace(sc.Bytes())
 		if len(line) == 0 {
 			continue
 		}
-		var s scenario
-		if err := json.Unmarshal(line, &s); err != nil {
+		s := &scenario{}
+		if err := json.Unmarshal(line, s); err != nil {
 			fatal("scenario %d: %v", n+1, err)
 		}
 		n++
-		doScenario(rec, &s, file)
+		if s.Stress != nil {
+			doScenario(rec, s, file) // a concurrent run has the process to itself
+		} else {
+			rest = append(rest, s)
+		}
 	}
 	if err := sc.Err(); err != nil {
 		fatal("%v", err)
+	}
+	// the sequential request sequences are independent of each other: several at a time, each worker with its own store
+	// file and its own trace part (the lines of one sequence must stay together); the parts are appended afterwards
+	var wg sync.WaitGroup
+	parts := make([]string, nworkers)
+	for w := 0; w < nworkers; w++ {
+		parts[w] = fmt.Sprintf("%s.w%d", tracePath, w)
+		wg.Add(1)
+		go func(w int) {
+			defer wg.Done()
+			prec, err := vtrace.New(parts[w])
+			if err != nil {
+				fatal("%v", err)
+			}
+			for i := w; i < len(rest); i += nworkers {
+				doScenario(prec, rest[i], fmt.Sprintf("%s.w%d.yaml", file, w))
+			}
+			if err := prec.Close(); err != nil {
+				fatal("%v", err)
+			}
+		}(w)
+	}
+	wg.Wait()
+	extra := 0
+	for _, p := range parts {
+		b, err := os.ReadFile(p)
+		if err != nil {
+			fatal("%v", err)
+		}
+		for _, l := range bytes.Split(b, []byte("\n")) {
+			if len(bytes.TrimSpace(l)) == 0 {
+				continue
+			}
+			var m map[string]interface{}
+			if err := json.Unmarshal(l, &m); err != nil {
+				fatal("%v", err)
+			}
+			ev, _ := m["ev"].(string)
+			delete(m, "ev")
+			delete(m, "seq")
+			rec.EmitMap(ev, m)
+			extra++
+		}
+		os.Remove(p)
 	}
 	// measured, never judged: the template cache after an update through the same service
 	be := newBackend(file)
@@ -867,36 +986,54 @@ func main() {
 	sc.Buffer(make([]byte, 1<<20), 1<<24)
 	n := 0
 	counts := map[string]int{}
+	var all []*tcase
 	for sc.Scan() {
 		line := bytes.TrimSpace(sc.Bytes())
 		if len(line) == 0 {
 			continue
 		}
 		n++
-		var c tcase
-		if err := json.Unmarshal(line, &c); err != nil {
+		c := &tcase{}
+		if err := json.Unmarshal(line, c); err != nil {
 			fatal("case %d: %v", n, err)
 		}
 		if c.S == nil {
 			c.S = []string{}
 		}
 		counts[c.K]++
-		switch c.K {
-		case "str":
-			doStr(rec, n, &c)
-		case "par":
-			doPar(rec, n, &c)
-		case "res":
-			doRes(rec, n, &c, file)
-		case "rnd":
-			doRnd(rec, n, &c, file)
-		default:
-			fatal("case %d: unknown kind %q", n, c.K)
-		}
+		all = append(all, c)
 	}
 	if err := sc.Err(); err != nil {
 		fatal("%v", err)
 	}
+	// the cases are independent: several at a time, each worker with its own store file / fake Consul agent
+	// (every line carries its case number; the order of the lines in the trace does not matter)
+	var wg sync.WaitGroup
+	for w := 0; w < nworkers; w++ {
+		wg.Add(1)
+		go func(w int) {
+			defer wg.Done()
+			wfile := fmt.Sprintf("%s.c%d.yaml", file, w)
+			for i := w; i < len(all); i += nworkers {
+				c, id := all[i], i+1
+				switch c.K {
+				case "str":
+					doStr(rec, id, c)
+				case "par":
+					doPar(rec, id, c)
+				case "res":
+					doRes(rec, id, c, wfile)
+				case "fld":
+					doFld(rec, id, c, wfile)
+				case "rnd":
+					doRnd(rec, id, c, wfile)
+				default:
+					fatal("case %d: unknown kind %q", id, c.K)
+				}
+			}
+		}(w)
+	}
+	wg.Wait()
 	if *corners {
 		doCorners(rec, file)
 	}
